@@ -20,6 +20,8 @@ type DiffMeta struct {
 	NVars   int          `json:"nvars"`
 	Max     int          `json:"max"`              // answers to pull
 	Assert  bool         `json:"assert,omitempty"` // load the program with assertz/1 instead of Exec
+	// AssertA: load it with asserta/1, last clause first (the database ends up in program order)
+	AssertA bool `json:"asserta,omitempty"`
 	Family  string       `json:"family,omitempty"`
 	QVars   []int64      `json:"qvars"` // the variables that are compared (default: all 0..NVars-1)
 	// Unordered: answers are compared as a multiset (used where the property leaves the order of
@@ -72,7 +74,18 @@ func programText(cl []*term.Term) string {
 
 func (d *DiffMeta) item() *Item {
 	c := &proto.Case{Kind: "prolog", Flags: d.Flags}
-	if d.Assert {
+	if d.AssertA {
+		for _, cl := range d.Program {
+			if cl.IsCmp(":-", 1) {
+				c.Setup = append(c.Setup, term.Text(cl, cvar)+".")
+			}
+		}
+		for i := len(d.Program) - 1; i >= 0; i-- {
+			if cl := d.Program[i]; !cl.IsCmp(":-", 1) {
+				c.Setup = append(c.Setup, ":- asserta("+term.Text(cl, cvar)+").")
+			}
+		}
+	} else if d.Assert {
 		for _, cl := range d.Program {
 			if cl.IsCmp("-->", 2) {
 				// grammar rules take the expand_term/2 path and are then asserted
